@@ -827,9 +827,50 @@ def pattern_const_f32(context, tree):
     return d
 
 
+def extend_narrow_value(context, reg, bits, signed):
+    """Give a register with the 8 or 16 bit value in reg extended to 32 bits.
+
+    The upper bits of a register with a narrow value are not defined, for
+    example after an addition that wrapped around.
+    """
+    d = context.new_reg(RiscvRegister)
+    context.emit(Slli(d, reg, 32 - bits))
+    if signed:
+        context.emit(Srai(d, d, 32 - bits))
+    else:
+        context.emit(Srli(d, d, 32 - bits))
+    return d
+
+
+@isa.pattern("stm", "CJMPI16(reg, reg)", size=12)
+def pattern_cjmpi16(context, tree, c0, c1):
+    c0 = extend_narrow_value(context, c0, 16, True)
+    c1 = extend_narrow_value(context, c1, 16, True)
+    pattern_cjmpi(context, tree, c0, c1)
+
+
+@isa.pattern("stm", "CJMPI8(reg, reg)", size=12)
+def pattern_cjmpi8(context, tree, c0, c1):
+    c0 = extend_narrow_value(context, c0, 8, True)
+    c1 = extend_narrow_value(context, c1, 8, True)
+    pattern_cjmpi(context, tree, c0, c1)
+
+
+@isa.pattern("stm", "CJMPU16(reg, reg)", size=12)
+def pattern_cjmpu16(context, tree, c0, c1):
+    c0 = extend_narrow_value(context, c0, 16, False)
+    c1 = extend_narrow_value(context, c1, 16, False)
+    pattern_cjmpu(context, tree, c0, c1)
+
+
+@isa.pattern("stm", "CJMPU8(reg, reg)", size=12)
+def pattern_cjmpu8(context, tree, c0, c1):
+    c0 = extend_narrow_value(context, c0, 8, False)
+    c1 = extend_narrow_value(context, c1, 8, False)
+    pattern_cjmpu(context, tree, c0, c1)
+
+
 @isa.pattern("stm", "CJMPI32(reg, reg)", size=4)
-@isa.pattern("stm", "CJMPI16(reg, reg)", size=4)
-@isa.pattern("stm", "CJMPI8(reg, reg)", size=4)
 def pattern_cjmpi(context, tree, c0, c1):
     op, yes_label, no_label = tree.value
     opnames = {"<": Blt, ">": Bgt, "==": Beq, "!=": Bne, ">=": Bge, "<=": Ble}
@@ -839,8 +880,6 @@ def pattern_cjmpi(context, tree, c0, c1):
     context.emit(jmp_ins)
 
 
-@isa.pattern("stm", "CJMPU8(reg, reg)", size=4)
-@isa.pattern("stm", "CJMPU16(reg, reg)", size=4)
 @isa.pattern("stm", "CJMPU32(reg, reg)", size=4)
 def pattern_cjmpu(context, tree, c0, c1):
     op, yes_label, no_label = tree.value
